@@ -36,8 +36,31 @@ Set Implicit Arguments.
 
 Inductive vkind := KUnit | KTuple | KNamed.
 
-(** The two words accepted inside [#[rust_cc(..)]], at one attribute position. *)
-Record attrs := Attrs { a_ignore : bool; a_no_drop : bool }.
+(** The attributes written at one position (type, variant or field), flattened in source
+    order to the words that matter: [WIgnore] / [WNoDrop] for the two words accepted inside
+    [#[rust_cc(..)]], [WOther] for any attribute that is not [rust_cc] (doc comments,
+    [#[allow(..)]], [#[cfg_attr(..)]] that does not expand to [rust_cc], ...), which
+    [get_meta_items] skips (lib.rs:100-112).
+
+    Looking for a word, lib.rs does [attrs.iter().any(|a| attr_contains(a, WORD))]:
+    [attr_contains] walks the words of one [rust_cc(..)] attribute and returns at the first
+    match, [any] stops at the first attribute that matched.  On the flattened list this is:
+    the word is *found* iff it occurs anywhere ([existsb]), and the scan stops at its first
+    occurrence - the other allowed word met *before* that point is reported as
+    "Invalid attribute position" (lib.rs:132-134), one met after it is never looked at. *)
+Inductive word := WIgnore | WNoDrop | WOther.
+Definition attrs := list word.
+Definition is_ignore (w : word) : bool := match w with WIgnore => true | _ => false end.
+Definition is_no_drop (w : word) : bool := match w with WNoDrop => true | _ => false end.
+Definition a_ignore (a : attrs) : bool := existsb is_ignore a.
+Definition a_no_drop (a : attrs) : bool := existsb is_no_drop a.
+
+(** [scan_err target bad a]: while looking for [target], a [bad] word is met first. *)
+Fixpoint scan_err (target bad : word -> bool) (a : attrs) : bool :=
+  match a with
+  | [] => false
+  | w :: t => if target w then false else bad w || scan_err target bad t
+  end.
 
 Record fdesc := FDesc { f_attrs : attrs }.
 Definition f_ignore (f : fdesc) : bool := a_ignore (f_attrs f).
@@ -75,9 +98,13 @@ Definition wf_tvalue (d : tdesc) (tv : tvalue) : Prop :=
 
 (** ** Acceptance: attribute-position errors (lib.rs:17-39, 114-145). *)
 Definition derive_accepts (d : tdesc) : bool :=
-  negb (a_ignore (type_attrs d)) &&
-  forallb (fun vd => (negb (is_enum d) || negb (a_no_drop (v_attrs vd))) &&
-                     forallb (fun f => negb (a_no_drop (f_attrs f))) (v_fields vd))
+  (* l.17-19: looking for unsafe_no_drop on the type *)
+  negb (scan_err is_no_drop is_ignore (type_attrs d)) &&
+  forallb (fun vd =>
+             (* l.30-36: looking for ignore on the variants of an enum *)
+             (negb (is_enum d) || negb (scan_err is_ignore is_no_drop (v_attrs vd))) &&
+             (* l.23-27: looking for ignore on every field *)
+             forallb (fun f => negb (scan_err is_ignore is_no_drop (f_attrs f))) (v_fields vd))
           (variants d).
 
 (** ** The generated [trace]. *)
@@ -113,12 +140,20 @@ Definition derived_calls (d : tdesc) (i : nat) : list nat :=
   | None => []
   end.
 
-Definition field_visit (fields : list value) (j : nat) : list nat :=
-  match nth_error fields j with Some x => visit x | None => [] end.
+(** [obs] is what one [trace] call on a field value makes observable: [visit] (the [Cc]s it
+    reports) or [utrace] (the user [trace] calls it makes). *)
+Definition field_obs (obs : value -> list nat) (fields : list value) (j : nat) : list nat :=
+  match nth_error fields j with Some x => obs x | None => [] end.
+
+Definition derived_obs (obs : value -> list nat) (d : tdesc) (tv : tvalue) : list nat :=
+  flat_map (field_obs obs (tv_fields tv)) (derived_calls d (tv_variant tv)).
 
 (** What one call of the derived [trace] reports. *)
-Definition derived_visit (d : tdesc) (tv : tvalue) : list nat :=
-  flat_map (field_visit (tv_fields tv)) (derived_calls d (tv_variant tv)).
+Definition field_visit := field_obs visit.
+Definition derived_visit (d : tdesc) (tv : tvalue) : list nat := derived_obs visit d tv.
+
+(** The user [trace] calls one call of the derived [trace] makes. *)
+Definition derived_utrace (d : tdesc) (tv : tvalue) : list nat := derived_obs utrace d tv.
 
 (** lib.rs:79-92. *)
 Definition emits_drop (d : tdesc) : bool := negb (no_drop d).
@@ -225,11 +260,11 @@ Proof.
   destruct (is_enum d && a_ignore (v_attrs vd)); simpl; auto using kept_bindings_spec.
 Qed.
 
-Lemma flat_map_field_visit (fds : list fdesc) : forall (fields pre : list value),
+Lemma flat_map_field_obs (obs : value -> list nat) (fds : list fdesc) : forall (fields pre : list value),
   length fds = length fields ->
-  flat_map (field_visit (pre ++ fields))
+  flat_map (field_obs obs (pre ++ fields))
            (map fst (filter (fun p => negb (f_ignore (snd p))) (indexed_from (length pre) fds))) =
-  flat_map visit (map snd (filter (fun p => negb (f_ignore (fst p))) (combine fds fields))).
+  flat_map obs (map snd (filter (fun p => negb (f_ignore (fst p))) (combine fds fields))).
 Proof.
   induction fds as [|f t IH]; intros fields pre Hlen; destruct fields as [|x xs];
     simpl in *; try discriminate; auto.
@@ -238,24 +273,33 @@ Proof.
   rewrite <- app_assoc, app_length in IH. simpl in IH.
   rewrite Nat.add_1_r in IH.
   destruct (negb (f_ignore f)); simpl; rewrite IH; auto.
-  f_equal. unfold field_visit.
+  f_equal. unfold field_obs.
   rewrite nth_error_app2 by lia. now rewrite Nat.sub_diag.
 Qed.
 
 (** C18, trace half: the derived [trace] reports exactly what the non-ignored fields of the
     active variant report, each field once, in declaration order; nothing if the active
     variant is ignored. *)
-Theorem C18_visit : forall d tv, wf_tvalue d tv ->
-  derived_visit d tv = concat (map visit (traced_fields d tv)).
+Theorem C18_obs : forall obs d tv, wf_tvalue d tv ->
+  derived_obs obs d tv = concat (map obs (traced_fields d tv)).
 Proof.
-  intros d [i fields] (vd & Hvd & Hlen). simpl in *.
-  unfold derived_visit, traced_fields. simpl.
+  intros obs d [i fields] (vd & Hvd & Hlen). simpl in *.
+  unfold derived_obs, traced_fields. simpl.
   rewrite derived_calls_spec. unfold spec_calls. rewrite Hvd.
   destruct (variant_ignored d vd); auto.
   rewrite <- flat_map_concat_map, <- kept_bindings_spec.
   symmetry in Hlen.
-  exact (flat_map_field_visit (v_fields vd) fields [] Hlen).
+  exact (flat_map_field_obs obs (v_fields vd) fields [] Hlen).
 Qed.
+
+Theorem C18_visit : forall d tv, wf_tvalue d tv ->
+  derived_visit d tv = concat (map visit (traced_fields d tv)).
+Proof. exact (C18_obs visit). Qed.
+
+(** Same statement for the user [trace] calls (fields that cannot hold a [Cc]). *)
+Theorem C18_utrace : forall d tv, wf_tvalue d tv ->
+  derived_utrace d tv = concat (map utrace (traced_fields d tv)).
+Proof. exact (C18_obs utrace). Qed.
 
 (** Each field exactly once, ignored ones never - at the level of the [trace] calls the
     generated code makes, for arbitrary field values. *)
@@ -361,7 +405,7 @@ Theorem C18_ignored_variant : forall d tv vd,
   nth_error (variants d) (tv_variant tv) = Some vd -> variant_ignored d vd = true ->
   derived_visit d tv = [].
 Proof.
-  intros d tv vd Hvd Hig. unfold derived_visit.
+  intros d tv vd Hvd Hig. unfold derived_visit, derived_obs.
   rewrite derived_calls_spec. unfold spec_calls. now rewrite Hvd, Hig.
 Qed.
 
@@ -372,9 +416,42 @@ Proof. reflexivity. Qed.
 
 (** ... but a type-level [ignore] (struct or enum) and a field/variant-level
     [unsafe_no_drop] are rejected by the macro. *)
+Lemma scan_err_absent target bad a :
+  existsb target a = false -> scan_err target bad a = existsb bad a.
+Proof.
+  induction a as [|w t IH]; simpl; auto.
+  intros H. apply orb_false_iff in H. destruct H as [Hw Ht].
+  now rewrite Hw, IH.
+Qed.
+
 Theorem C18_type_level_ignore_rejected : forall d,
-  a_ignore (type_attrs d) = true -> derive_accepts d = false.
-Proof. intros d H. unfold derive_accepts. now rewrite H. Qed.
+  a_ignore (type_attrs d) = true -> no_drop d = false -> derive_accepts d = false.
+Proof.
+  intros d Hi Hn. unfold derive_accepts, no_drop, a_no_drop, a_ignore in *.
+  now rewrite (scan_err_absent _ is_ignore _ Hn), Hi.
+Qed.
+
+(** Whether an attribute position is "ignored" depends only on the presence of the word, not
+    on where it stands among the other attributes, nor on how often it is repeated. *)
+Theorem C18_ignore_position_irrelevant : forall pre post : attrs,
+  a_ignore (pre ++ WIgnore :: post) = true.
+Proof. intros. unfold a_ignore. rewrite existsb_app. simpl. apply orb_true_r. Qed.
+
+Theorem C18_other_attrs_irrelevant : forall a : attrs,
+  a_ignore a = a_ignore (filter (fun w => negb match w with WOther => true | _ => false end) a).
+Proof.
+  induction a as [|w t IH]; simpl; auto.
+  destruct w; simpl; auto.
+Qed.
+
+(** Quirk of the scan order (not part of the property): a type-level [ignore] written *after*
+    [unsafe_no_drop] is never looked at, hence not rejected - and has no effect whatsoever,
+    since [variant_ignored] is [false] for a struct and looks at the variants' own attributes
+    for an enum. *)
+Example type_level_ignore_after_no_drop_accepted : forall k,
+  derive_accepts (TStruct [WNoDrop; WIgnore] k []) = true /\
+  derive_accepts (TStruct [WIgnore; WNoDrop] k []) = false.
+Proof. intros; split; reflexivity. Qed.
 
 (** C18, Drop half. *)
 Theorem C18_drop : forall d,
@@ -384,6 +461,15 @@ Theorem C18_drop : forall d,
 Proof.
   intros d. unfold coherent, drop_impls, emits_drop.
   destruct (no_drop d); simpl; auto.
+Qed.
+
+(** The Drop impl does not depend on what is traced: also a type in which nothing ends up
+    traced (unit struct, no fields, every field or every variant ignored) gets it. *)
+Theorem C18_drop_untraced : forall d,
+  (forall i, derived_calls d i = []) -> no_drop d = false ->
+  emits_drop d = true /\ coherent d true = false.
+Proof.
+  intros d _ Hn. unfold coherent, drop_impls, emits_drop. now rewrite Hn.
 Qed.
 
 (** C18, Finalize half: the derived finalizer is empty - it forwards to no field, whatever
